@@ -491,21 +491,34 @@ func runUpload(id int, sc scenario, variant int, base string) (res result) {
 	}
 	var wErr error
 	useCreate := (variant/27)%2 == 1
-	if useCreate {
-		f, err := db.Create(wctx, upKey)
-		if err != nil {
-			wErr = err
-		} else {
-			_, cpErr := io.Copy(f, r)
-			if cpErr != nil {
-				wErr = cpErr
-				cancel() // the caller gives up: it does not Close a file whose content it could not produce
+	done := make(chan struct{})
+	go func() {
+		defer close(done)
+		if useCreate {
+			f, err := db.Create(wctx, upKey)
+			if err != nil {
+				wErr = err
 			} else {
-				wErr = f.Close()
+				_, cpErr := io.Copy(f, r)
+				if cpErr != nil {
+					wErr = cpErr
+					cancel() // the caller gives up: it does not Close a file whose content it could not produce
+				} else {
+					wErr = f.Close()
+				}
 			}
+		} else {
+			wErr = db.SetReader(wctx, upKey, r)
 		}
-	} else {
-		wErr = db.SetReader(wctx, upKey, r)
+	}()
+	select {
+	case <-done:
+	case <-time.After(45 * time.Second):
+		// the caller's context is still alive: the call waits for something that will never come
+		cancel()
+		res.Status, res.Owner = "violation", "C10"
+		res.Mismatch = &mismatch{Kind: "hang", Detail: fmt.Sprintf("the upload (%s of %d bytes, %s after %d bytes, gRPC client: %v) has not returned after 45 s", map[bool]string{true: "Create+Write*+Close", false: "SetReader"}[useCreate], size, sc.Kind, at, external_)}
+		return res
 	}
 	if sc.Kind == "reject_nospace" {
 		verif.SetWriteFault(nil)
